@@ -355,9 +355,23 @@ def sampler_slots(mod, session):
         envs = _envelopes(mod)
         e = envs[v % len(envs)]
         w = v >> 4
-        kind = w % (8 if CUR_LAYOUT >= 2 else 6)
-        w >>= 3
+        kind = w % (9 if CUR_LAYOUT >= 2 else 6)
+        w >>= 3 if CUR_LAYOUT < 2 else 4
         lo, hi = e.range
+        if kind == 8:
+            # joint edit: several envelopes get new point lists in one go (boundary-biased lengths),
+            # so that combinations such as "one envelope empty, another one custom" are reached
+            for j, ee in enumerate(envs):
+                if (w >> j) & 1:
+                    continue
+                ww = mix(w, j)
+                n = (0, 1, 12, 13, 16)[(ww >> 4) % 5] if ww & 1 else (ww >> 4) % 17
+                pts, x = [], 0
+                for q in range(n):
+                    x = min(65535, x + mix(ww, q) % 300)
+                    pts.append((x, pick_int(mix(ww, q + 100), ee.range[0], ee.range[1])))
+                ee.points = pts
+            return
         if kind in (6, 7):
             # edit ONE point in place (x or y), leaving the rest of the envelope alone; the point
             # index comes from the low bits so that a focused history returns to the same point
